@@ -36,10 +36,16 @@ def leaf_prog(leaf, q):
         "value": [["from", U], ["select", [k(ux)]], ["where", ["cmp", "=", uy, ["raw", 5]]]],
         "value2": [["from", U], ["select", [k(ux)]], ["where", ["logic", "AND", ["cmp", "=", uy, ["raw", 5]], ["in", ux, [["raw", "a"], ["raw", "b"]]]]]],
         "backslash": [["from", U], ["select", [k(ux)]], ["where", ["cmp", "=", uy, ["raw", "a\\b'c"]]]],
+        "inlist5": [["from", U], ["select", [k(ux)]], ["where", ["logic", "AND", ["in", ux, [["raw", 1], ["raw", "a\\b"], ["raw", 3], ["raw", "d"], ["raw", 5]]],
+                                                                 ["cmp", "=", ["tuple", [ux, uy, ux, uy]], ["tuple", [["raw", 1], ["raw", 2], ["raw", "c\\"], ["raw", 4]]]]]]],
         "bool": [["from", U], ["select", [["raw", True], k(ux)]]],
         "bool_crit": [["from", U], ["select", [k(ux)]], ["where", ["cmp", "=", uy, ["raw", False]]]],
         "array": [["from", U], ["select", [k(["array", [["raw", 1], ["raw", 2]]])]]],
         "interval": [["from", U], ["select", [k(["arith", "+", ux, ["interval", {"days": 1, "hours": 2}]])]]],
+        "interval_kw": [["from", U], ["select", [k(["arith", "+", ux, ["interval", {"days": 1, "hours": 2, "dialect": "MYSQL"}]]),
+                                                 ["arith", "-", uy, ["interval", {"hours": 36, "dialect": "POSTGRESQL"}]]]]],
+        "json_esc": [["from", U], ["select", [k(ux), ["json", {"$dict": [["s", "q\\r\"t'u"]]}]]],
+                     ["where", ["logic", "AND", ["jsonop", "contains", ["f", "u", "j"], {"$dict": [["a", "x\\y\"z'w"], ["b", [1, "v\\"]]]}], ["cmp", "=", uy, ["raw", "p\\"]]]]],
         "json": [["from", U], ["select", [k(ux)]], ["where", ["jsonop", "contains", ["f", "u", "j"], ["$dict", [["a", 1]]]]]],
         "jsondict": [["from", U], ["select", [["raw", {"$dict": [["a", "x\\y\"z'w"], ["b", [1, "q\\"]]]}], k(ux)]]],
         "jsondict_set": [["update", U], ["set", "j", ["raw", {"$dict": [["a", "x\\y\"z'w"]]}]], ["where", ["cmp", "=", uy, ["raw", "a\\b"]]]],
@@ -71,8 +77,8 @@ def embed(construct, inner, q, level):
     return {"calls": c, "q": q}
 
 
-NEUTRAL = {"ident", "value", "value2", "backslash", "json", "jsondict", "jsondict_set", "orderalias", "setop_orderalias"}
-LEAVES = ["ident", "value", "value2", "backslash", "bool", "bool_crit", "array", "interval", "json", "jsondict", "jsondict_set", "groupalias", "orderalias",
+NEUTRAL = {"ident", "value", "value2", "backslash", "inlist5", "json_esc", "json", "jsondict", "jsondict_set", "orderalias", "setop_orderalias"}
+LEAVES = ["ident", "value", "value2", "backslash", "inlist5", "bool", "bool_crit", "array", "interval", "interval_kw", "json", "json_esc", "jsondict", "jsondict_set", "groupalias", "orderalias",
           "setop_orderalias", "limit"]
 
 
